@@ -242,7 +242,21 @@ func Equal(a, b protocol.Message) bool {
 	return reflect.DeepEqual(a, b)
 }
 
+// peersEq compares peer lists as the wire can carry them: the IPv4
+// subsequence and the IPv6 subsequence (BEP 11 has one list per family).
 func peersEq(a, b []pex.Peer) bool {
+	fam := func(l []pex.Peer) []pex.Peer {
+		var v4, v6 []pex.Peer
+		for _, p := range l {
+			if p.Addr.Addr().Is4() {
+				v4 = append(v4, p)
+			} else {
+				v6 = append(v6, p)
+			}
+		}
+		return append(v4, v6...)
+	}
+	a, b = fam(a), fam(b)
 	if len(a) != len(b) {
 		return false
 	}
